@@ -63,8 +63,9 @@ Str(s, v) == PrintT(ToJson([k |-> "str", s |-> s, valid |-> v, compound |-> FALS
 PerId == vIdx > 0 =>
   LET id == AllIds[vIdx] IN
   IF vIdx <= Len(Active) + Len(Deprecated)
-  THEN /\ Valid(id) /\ Str(id, TRUE)
+  THEN /\ Str(id, TRUE)                     \* (obligations are emitted first, then asserted of the model itself)
        /\ PrintT(ToJson([k |-> "sat", e |-> id, a |-> <<id>>, sat |-> TRUE, err |-> FALSE]))
-  ELSE /\ Valid(P \o " WITH " \o id) /\ ~Valid(id) /\ ~Valid(P \o " AND " \o id)
-       /\ Str(P \o " WITH " \o id, TRUE) /\ Str(id, FALSE) /\ Str(P \o " AND " \o id, FALSE) /\ Str(id \o " WITH " \o id, FALSE)
+       /\ Valid(id)
+  ELSE /\ Str(P \o " WITH " \o id, TRUE) /\ Str(id, FALSE) /\ Str(P \o " AND " \o id, FALSE) /\ Str(id \o " WITH " \o id, FALSE)
+       /\ Valid(P \o " WITH " \o id) /\ ~Valid(id) /\ ~Valid(P \o " AND " \o id)
 =============================================================================
